@@ -10,9 +10,8 @@ the returned slice is a permutation
 `LevelsOK` of `CanonFStep.lean`, `age = len(path)`, and two phases:
 
 * before the first leaf (`count = 0`): `currentBest` is empty, so no certificate comparison can prune
-  (`refine_not_worse`, `splitBin_phase1`): the search walks straight down to the first leaf; on the way
-  `CleanPrefix`/`NoEarlierNbr` hold, so at the first leaf the certificate is non-empty when the graph has an edge
-  (`leaf_value_ne`), it beats the empty `currentBest` and `currentBestPerm` becomes a copy of `order`;
+  (`refine_not_worse`, `splitBin_not_worse`): the search walks straight down to the first leaf, which is always accepted
+  as the new best (`comp == 1 || count == 1`): `currentBestPerm` becomes a copy of `order`;
 * afterwards (`count > 0`): `currentBest` has length `m` and `currentBestPerm` is a copy of `order` at some leaf.
 
 `order` is a permutation at all times (`PartInv`), hence so is the returned `currentBestPerm`.
@@ -20,14 +19,25 @@ the returned slice is a permutation
 namespace CanonF
 
 theorem Core.congr {n : Nat} {s s2 : LS} (hc : Core n s) (e1 : s2.op = s.op) (e2 : s2.sc = s.sc)
-    (e3 : s2.bestPerm = s.bestPerm) (e4 : s2.currentBest = s.currentBest) : Core n s2 := by
+    (e3 : s2.bestPerm = s.bestPerm) (e5 : 0 < s2.count → 0 < s.count) : Core n s2 := by
   constructor
   · rw [e1]; exact hc.part
   · rw [e1]; exact hc.age
   · rw [e2]; exact hc.scr
   · rw [e3]; exact hc.bestWf
   · rw [e3]; exact hc.bestLen
-  · rw [e3, e4]; exact hc.bestPerm
+  · intro h; rw [e3]; exact hc.bestPerm (e5 h)
+
+
+theorem splitBin_not_worse {n : Nat} {nb : Nbrs} {cb fl : Sl Nat} {op op' : OP} {i : Nat} {w : Bool}
+    (hcb : cb.len = 0) (h : PartInv n op) (ha : AgeInv op) (hi : i < n) (hns : NonSingleton op.binDividers.toList i)
+    (hs : splitBin nb cb fl op i = .ok (w, op')) : w = false := by
+  obtain ⟨op1, _, _, _, _, _, _, _, _, _, _, _, _, hif⟩ := splitBin_decomp h ha hi hns hs
+  split at hif
+  · unfold expandValue at hif
+    exact expandLoop_not_worse hcb _ _ _ _ _ hif
+  · exact hif.1
+
 
 theorem compare_nil_right (l : List Nat) : compare l [] = if l = [] then 0 else 1 := by
   cases l <;> simp [compare]
@@ -37,11 +47,13 @@ theorem leafNode_spec {n m : Nat} {s s' : LS} {lv : List (Nat × Nat)} (hc : Cor
     (hl : LevelsOK s.op s.path s.choices lv) (hage : s.op.age = s.path.length) (h : leafNode n m s = .ok s') :
     ∃ lv', Core n s' ∧ LevelsOK s'.op s'.path s'.choices lv' ∧ s'.op.age = s'.path.length ∧
       s'.skipDeage = s.skipDeage ∧ s'.count = s.count + 1 ∧ s'.sc = s.sc ∧
-      ((compare s.op.value.toList s.currentBest.toList == 1) = true → s'.currentBest.len = m ∧ s'.op = s.op) ∧
-      ((compare s.op.value.toList s.currentBest.toList == 1) = false → s'.currentBest = s.currentBest) := by
+      ((compare s.op.value.toList s.currentBest.toList == 1 || s.count + 1 == 1) = true →
+        s'.currentBest.len = m ∧ s'.op = s.op) ∧
+      ((compare s.op.value.toList s.currentBest.toList == 1 || s.count + 1 == 1) = false →
+        s'.currentBest = s.currentBest) := by
   unfold leafNode at h
   dsimp only at h
-  by_cases hc1 : (compare s.op.value.toList s.currentBest.toList == 1) = true
+  by_cases hc1 : (compare s.op.value.toList s.currentBest.toList == 1 || s.count + 1 == 1) = true
   · rw [if_pos hc1] at h
     have hbest : (s.bestPerm.copyFrom s.op.order.toList).toList.Perm (List.range n) := by
       rw [Sl.copyFrom_toList _ hc.bestWf _ (by rw [Sl.length_toList _ hc.part.wfOrder, hc.part.lenOrder, hc.bestLen])]
@@ -60,14 +72,19 @@ theorem leafNode_spec {n m : Nat} {s s' : LS} {lv : List (Nat × Nat)} (hc : Cor
         · exact hc.bestLen
         · intro _; exact hbest
       · simp only [Sl.copyFrom_len]; exact hm
-  · have hc1' : (compare s.op.value.toList s.currentBest.toList == 1) = false := by simpa using hc1
+  · have hc1' : (compare s.op.value.toList s.currentBest.toList == 1 || s.count + 1 == 1) = false := by
+      simpa using hc1
+    have hpos : 0 < s.count + 1 → 0 < s.count := by
+      intro _
+      simp only [Bool.or_eq_false_iff, beq_eq_false_iff_ne, ne_eq] at hc1'
+      omega
     rw [if_neg hc1] at h
     by_cases hc0 : (compare s.op.value.toList s.currentBest.toList == 0) = true
     · rw [if_pos hc0] at h
       osplit h
       all_goals
         rename_i hbj
-        obtain ⟨lv', b1, b2, b3, b4, _⟩ := backJump_spec (StepQ.trivial n #[] default default) (n := n) (lv := lv) (by exact Core.congr hc rfl rfl rfl rfl) (by exact hl) (by exact hage) True.intro h
+        obtain ⟨lv', b1, b2, b3, b4, _⟩ := backJump_spec (StepQ.trivial n #[] default default) (n := n) (lv := lv) (by exact Core.congr hc rfl rfl rfl hpos) (by exact hl) (by exact hage) True.intro h
         refine ⟨lv', b1, b2, b3, ?_, ?_, ?_, fun hf => (by rw [hc1'] at hf; cases hf), fun _ => ?_⟩
         all_goals (rw [b4])
     · rw [if_neg hc0] at h
@@ -75,31 +92,23 @@ theorem leafNode_spec {n m : Nat} {s s' : LS} {lv : List (Nat × Nat)} (hc : Cor
       · rw [if_pos hcf] at h
         osplit h
         all_goals
-          obtain ⟨lv', b1, b2, b3, b4, _⟩ := backJump_spec (StepQ.trivial n #[] default default) (n := n) (lv := lv) (by exact Core.congr hc rfl rfl rfl rfl) (by exact hl) (by exact hage) True.intro h
+          obtain ⟨lv', b1, b2, b3, b4, _⟩ := backJump_spec (StepQ.trivial n #[] default default) (n := n) (lv := lv) (by exact Core.congr hc rfl rfl rfl hpos) (by exact hl) (by exact hage) True.intro h
           refine ⟨lv', b1, b2, b3, ?_, ?_, ?_, fun hf => (by rw [hc1'] at hf; cases hf), fun _ => ?_⟩
           all_goals (rw [b4])
       · rw [if_neg hcf] at h
         cases h
-        exact ⟨lv, Core.congr hc rfl rfl rfl rfl, hl, hage, rfl, rfl, rfl, fun hf => (by rw [hc1'] at hf; cases hf), fun _ => rfl⟩
+        exact ⟨lv, Core.congr hc rfl rfl rfl hpos, hl, hage, rfl, rfl, rfl, fun hf => (by rw [hc1'] at hf; cases hf), fun _ => rfl⟩
 
 
 /-- before the first leaf (`count = 0`, `currentBest` empty) the first step into a freshly pushed level succeeds -/
 theorem stepLoop_phase1 {n : Nat} {nb : Nbrs} {s : LS} {st sz k : Nat} {b : Bool} {s2 : LS}
-    (hp : PartInv n s.op) (ha : AgeInv s.op) (hcl : CleanPrefix s.op) (hno : NoEarlierNbr nb s.op)
+    (hp : PartInv n s.op) (ha : AgeInv s.op)
     (hcount : s.count = 0) (hcb : s.currentBest.len = 0)
     (hd : s.op.binDividers.toList[st]? = some (st + sz)) (hsz : 2 ≤ sz)
     (hsing : ∀ t, t < st → s.op.binDividers.toList[t]? = some (t + 1))
     (h : stepLoop nb (k + 1) { s with choices := (st + sz) :: s.choices, path := sz :: s.path, skipDeage := true } = .ok (b, s2)) :
-    b = true ∧ CleanPrefix s2.op ∧ NoEarlierNbr nb s2.op := by
-  -- the found cell is the one at index spl
-  have hst : st = s.op.spl := by
-    rcases Nat.lt_trichotomy st s.op.spl with hlt | heq | hgt
-    · have := hcl.single st hlt; rw [hd] at this; have := Option.some.inj this; omega
-    · exact heq
-    · exact absurd (hsing _ hgt) hcl.next
+    b = true := by
   have hi : st + sz - 1 < n := by have := hp.bd_le st _ hd; omega
-  have hbi : binIdx s.op.binDividers.toList (st + sz - 1) = s.op.spl := by
-    rw [← hst]; exact binIdx_of_cell _ hp.sorted st sz _ hsing hd (by omega) (by omega)
   have hns : NonSingleton s.op.binDividers.toList (st + sz - 1) := by
     intro hc
     obtain ⟨c1, c2⟩ := hc
@@ -138,11 +147,10 @@ theorem stepLoop_phase1 {n : Nat} {nb : Nbrs} {s : LS} {st sz k : Nat} {b : Bool
         obtain ⟨worse, op'⟩ := r
         rw [hsp] at h
         simp only at h
-        obtain ⟨w1, w2, w3⟩ := splitBin_phase1 hp ha hcl hno hcb hi hns hbi hsp
+        have w1 := splitBin_not_worse hcb hp ha hi hns hsp
         subst w1
         simp at h
-        obtain ⟨rfl, rfl⟩ := h
-        exact ⟨rfl, w2, w3⟩
+        exact h.1
 
 
 /-- the neighbour lists contain an edge (given in both directions) -/
@@ -212,7 +220,7 @@ structure MInv (n m : Nat) (nb : Nbrs) (s : LS) : Prop where
   age : s.op.age = s.path.length
   skip : s.skipDeage = false
   tsCap : n ≤ s.sc.timesSeen.data.size
-  phase1 : s.count = 0 → s.currentBest.len = 0 ∧ CleanPrefix s.op ∧ NoEarlierNbr nb s.op
+  phase1 : s.count = 0 → s.currentBest.len = 0
   found : 0 < s.count → s.currentBest.len = m
 
 /-- re-wrapping the scratch slices with length `n` (the caller's slice headers) -/
@@ -233,7 +241,7 @@ theorem scratch_rewrap {n : Nat} {sc sc1 : Scratch} (h : ScratchOK n sc) (ht : n
   · rfl
 
 /-- one node step of the main loop (leaf branch / push of a new level / nothing when `worse`) keeps the invariants -/
-theorem node_step {n m : Nat} {nb : Nbrs} (he : HasEdge nb n) {worse : Bool} {s : LS} {lv : List (Nat × Nat)}
+theorem node_step {n m : Nat} {nb : Nbrs} {worse : Bool} {s : LS} {lv : List (Nat × Nat)}
     (hI : MInv n m nb s) (hw : s.count = 0 → worse = false) (hlv : LevelsOK s.op s.path s.choices lv) :
     ∀ s1, (if (!worse && s.op.binDividers.len == n) = true then leafNode n m s
     else if (!worse) = true then innerNode s else Outcome.ok s) = .ok s1 →
@@ -241,7 +249,7 @@ theorem node_step {n m : Nat} {nb : Nbrs} (he : HasEdge nb n) {worse : Bool} {s 
       s1.op.age + (if s1.skipDeage then 1 else 0) = s1.path.length ∧ s1.sc = s.sc ∧
       (0 < s1.count → s1.currentBest.len = m) ∧
       (s1.count = 0 → s1.currentBest.len = 0 ∧ ∀ b s2, stepLoop nb s1.path.length s1 = .ok (b, s2) →
-        b = true ∧ CleanPrefix s2.op ∧ NoEarlierNbr nb s2.op) := by
+        b = true) := by
   intro s1 h1
   by_cases hleaf : (!worse && s.op.binDividers.len == n) = true
   · rw [if_pos hleaf] at h1
@@ -249,22 +257,14 @@ theorem node_step {n m : Nat} {nb : Nbrs} (he : HasEdge nb n) {worse : Bool} {s 
     obtain ⟨lv1, a1, a2, a3, a4, a5, a6, a7, a8⟩ := leafNode_spec hI.core hlv hI.age h1
     refine ⟨lv1, a1, a2, by rw [a4, hI.skip]; simpa using a3, a6, ?_, fun h0 => by omega⟩
     intro _
-    by_cases hcnt : s.count = 0
-    · -- the first leaf: the certificate is not empty, so it beats the empty `currentBest`
-      obtain ⟨p1, p2, p3⟩ := hI.phase1 hcnt
-      have hv := leaf_value_ne hI.core.part p2 p3 hleaf.2 he
-      have hcbe : s.currentBest.toList = [] := by
-        apply List.eq_nil_of_length_eq_zero
-        simp [Sl.toList, p1]
-      have hvne : s.op.value.toList ≠ [] := hv
-      have : (compare s.op.value.toList s.currentBest.toList == 1) = true := by
-        rw [hcbe, compare_nil_right, if_neg hvne]; rfl
-      exact (a7 this).1
-    · have hpos : 0 < s.count := by omega
-      have hm' := hI.found hpos
-      by_cases hc1 : (compare s.op.value.toList s.currentBest.toList == 1) = true
-      · exact (a7 hc1).1
-      · rw [a8 (by simpa using hc1)]; exact hm'
+    by_cases hc1 : (compare s.op.value.toList s.currentBest.toList == 1 || s.count + 1 == 1) = true
+    · exact (a7 hc1).1
+    · have hc1' : (compare s.op.value.toList s.currentBest.toList == 1 || s.count + 1 == 1) = false := by
+        simpa using hc1
+      have hpos : 0 < s.count := by
+        simp only [Bool.or_eq_false_iff, beq_eq_false_iff_ne, ne_eq] at hc1'
+        omega
+      rw [a8 hc1']; exact hI.found hpos
   · rw [if_neg hleaf] at h1
     by_cases hnw : (!worse) = true
     · rw [if_pos hnw] at h1
@@ -276,11 +276,11 @@ theorem node_step {n m : Nat} {nb : Nbrs} (he : HasEdge nb n) {worse : Bool} {s 
         by simp only [if_true, List.length_cons]; have := hI.age; omega, rfl, hI.found, ?_⟩
       intro h0
       have h0' : s.count = 0 := h0
-      obtain ⟨p1, p2, p3⟩ := hI.phase1 h0'
+      have p1 := hI.phase1 h0'
       refine ⟨p1, ?_⟩
       intro b s2 hs
       simp only [List.length_cons] at hs
-      exact stepLoop_phase1 hI.core.part hI.core.age p2 p3 h0' p1 i2 i3 i4 hs
+      exact stepLoop_phase1 hI.core.part hI.core.age h0' p1 i2 i3 i4 hs
     · rw [if_neg hnw] at h1
       cases h1
       have hwt : worse = true := by simpa using hnw
@@ -291,7 +291,7 @@ theorem node_step {n m : Nat} {nb : Nbrs} (he : HasEdge nb n) {worse : Bool} {s 
       exact ⟨lv, hI.core, hlv, by rw [hI.skip]; simpa using hI.age, rfl, hI.found, fun h0 => by omega⟩
 
 set_option maxHeartbeats 800000 in
-theorem mainLoop_spec (hst : StablePerm) {n m : Nat} {nb : Nbrs} (he : HasEdge nb n) :
+theorem mainLoop_spec (hst : StablePerm) {n m : Nat} {nb : Nbrs} :
     ∀ (fuel : Nat) (worse : Bool) (s s' : LS), MInv n m nb s → (s.count = 0 → worse = false) →
       mainLoop nb n m fuel worse s = .ok s' →
       0 < s'.count ∧ Core n s' ∧ s'.currentBest.len = m := by
@@ -302,7 +302,7 @@ theorem mainLoop_spec (hst : StablePerm) {n m : Nat} {nb : Nbrs} (he : HasEdge n
     intro worse s s' hI hw h
     rw [mainLoop] at h
     obtain ⟨lv, hlv⟩ := hI.lev
-    have hnode := node_step he hI hw hlv
+    have hnode := node_step hI hw hlv
     cases hs1 : (if (!worse && s.op.binDividers.len == n) = true then leafNode n m s
         else if (!worse) = true then innerNode s else Outcome.ok s) with
     | panic => rw [hs1] at h; cases h
@@ -327,7 +327,7 @@ theorem mainLoop_spec (hst : StablePerm) {n m : Nat} {nb : Nbrs} (he : HasEdge n
           cases h
           have hpos : 0 < s1.count := by
             rcases Nat.eq_zero_or_pos s1.count with h0 | h0
-            · have := ((p1 h0).2 false s' hst2).1; cases this
+            · have := (p1 h0).2 false s' hst2; cases this
             · exact h0
           exact ⟨by omega, c2, by rw [hcb]; exact f1 hpos⟩
         | true =>
@@ -361,10 +361,8 @@ theorem mainLoop_spec (hst : StablePerm) {n m : Nat} {nb : Nbrs} (he : HasEdge n
                 have h0' : s1.count = 0 := by
                   have : s2.count = 0 := h0
                   omega
-                obtain ⟨q1, q2⟩ := p1 h0'
-                obtain ⟨_, q3, q4⟩ := q2 true s2 hst2
-                have hcb0 : s2.currentBest.len = 0 := by rw [hcb]; exact q1
-                exact ⟨hcb0, refine_phase1 hst c2.part c2.age c2.scr q3 q4 hcb0 rfl hr⟩
+                show s2.currentBest.len = 0
+                rw [hcb]; exact (p1 h0').1
               · intro hpos
                 have : 0 < s1.count := by
                   have : 0 < s2.count := hpos
@@ -388,31 +386,36 @@ theorem slOf_spec {α : Type} {a : Array α} {k : Nat} {s : Sl α} (h : slOf a k
 /-- the permutation returned by `CanonicalIsomorphAllocated` (case `n > 0`, `m > 0`, no viability check) -/
 theorem allocated_perm (hst : StablePerm) {fuel n m : Nat} {nb : Nbrs} {op0 : OP} {st : Storage} {opts : Options}
     {r : Res} {opR : Option OP} {stR : Storage}
-    (hn : n ≠ 0) (hm : m ≠ 0) (hv : opts.checkViability = false)
-    (hp : PartInv n op0) (ha : AgeInv op0) (hage : op0.age = 0) (hcl : CleanPrefix op0) (hno : NoEarlierNbr nb op0)
-    (he : HasEdge nb n)
+    (hn : n ≠ 0) (hgen : m = 0 → op0.binDividers.len ≠ 1) (hv : opts.checkViability = false)
+    (hp : PartInv n op0) (ha : AgeInv op0) (hage : op0.age = 0)
     (h : canonicalIsomorphAllocated fuel n m nb (some op0) st opts = .ok (r, opR, stR)) :
     ∃ p, r.perm = some p ∧ p.Perm (List.range n) := by
   unfold canonicalIsomorphAllocated at h
-  rw [if_neg hn, if_neg hm] at h
+  rw [if_neg hn] at h
+  have hshort : (if m = 0 then (match (some op0 : Option OP) with
+      | none => Outcome.panic
+      | some o => Outcome.ok (o.binDividers.len == 1)) else Outcome.ok false) = Outcome.ok false := by
+    by_cases hm : m = 0
+    · rw [if_pos hm]; simp [hgen hm]
+    · rw [if_neg hm]
+  simp only [hshort] at h
   osplit h
   · rename_i hvw
     simp [hv] at hvw
-  · rename_i _ _ _ _ bestPath bestPerm bestPermInv bestOrbits bestRest _ hbpm _ _ _ _ _ _ firstLeaf flPermInv flOrbits flRest flPath _ _ _ _ _ _ _ space dws nbs _ _ _ _ _ _ timesSeen maxCell numberOfMax hts hmc hnm _ op00 hop _ worse op1 sc1 href hvw _ s hmain
-    cases hop
+  · rename_i _ _ _ _ bestPath bestPerm bestPermInv bestOrbits bestRest _ hbpm _ _ _ _ _ _ firstLeaf flPermInv flOrbits flRest flPath _ _ _ _ _ _ _ space dws nbs _ _ _ _ _ _ timesSeen maxCell numberOfMax hts hmc hnm _ worse op1 sc1 href hvw _ w2 op2 hexp _ s hmain
     cases h
     obtain ⟨w1, l1, d1⟩ := slOf_spec hts
-    obtain ⟨w2, l2, d2⟩ := slOf_spec hmc
+    obtain ⟨w2', l2, d2⟩ := slOf_spec hmc
     obtain ⟨w3, l3, d3⟩ := slOf_spec hnm
     obtain ⟨w4, l4, d4⟩ := slOf_spec hbpm
-    have hsc : ScratchOK n (Scratch.mk dws nbs space timesSeen maxCell numberOfMax) := ⟨w1, w2, w3, l2, l3⟩
+    have hsc : ScratchOK n (Scratch.mk dws nbs space timesSeen maxCell numberOfMax) := ⟨w1, w2', w3, l2, l3⟩
     obtain ⟨r1, r2, r3, r4, _, _, _, z1, z2, z3, _⟩ := refine_inv hst hp ha hsc href
     have z1' : sc1.timesSeen.data.size = timesSeen.data.size := z1
-    have hph := refine_phase1 hst hp ha hsc hcl hno (cb := ⟨st.currentBest, 0⟩) rfl hv href
     have hwf := refine_not_worse (cb := ⟨st.currentBest, 0⟩) rfl hv href
     have htc : n ≤ timesSeen.data.size := by have := w1; unfold Sl.WF at this; omega
+    obtain ⟨f1, f2, f3, _, f5, f6⟩ := expandValue_frame hexp
     have hI : MInv n m nb
-        { op := op1,
+        { op := op2,
           sc := { dws := ⟨sc1.dws.data, n⟩, nbs := ⟨sc1.nbs.data, n⟩, space := ⟨sc1.space.data, n⟩,
                   timesSeen := ⟨sc1.timesSeen.data, n⟩, maxCell := ⟨sc1.maxCell.data, n⟩,
                   numberOfMax := ⟨sc1.numberOfMax.data, n⟩ },
@@ -422,20 +425,20 @@ theorem allocated_perm (hst : StablePerm) {fuel n m : Nat} {nb : Nbrs} {op0 : OP
           path := [], choices := [], skipDeage := false } := by
       constructor
       · constructor
-        · exact r1
-        · exact r2
+        · exact PartInv.of_frame r1 f1 f2 f3 f6
+        · exact AgeInv.of_frame r2 f3 f5
         · exact scratch_rewrap hsc htc z1 z2 z3
         · exact w4
         · exact l4
-        · intro hc; exact absurd rfl hc
+        · intro hc; exact absurd hc (Nat.lt_irrefl 0)
       · exact ⟨[], by simp [LevelsOK]⟩
-      · show op1.age = _; rw [r3, hage]; rfl
+      · show op2.age = _; rw [f5, r3, hage]; rfl
       · rfl
       · show n ≤ sc1.timesSeen.data.size; omega
-      · intro _; exact ⟨rfl, hph.1, hph.2⟩
+      · intro _; rfl
       · intro hc; exact absurd hc (Nat.lt_irrefl 0)
-    obtain ⟨q1, q2, q3⟩ := mainLoop_spec hst he fuel worse _ s hI (fun _ => hwf) hmain
-    exact ⟨_, rfl, q2.bestPerm (by omega)⟩
+    obtain ⟨q1, q2, q3⟩ := mainLoop_spec hst fuel worse _ s hI (fun _ => hwf) hmain
+    exact ⟨_, rfl, q2.bestPerm q1⟩
 
 
 /-! ## the wrappers -/
@@ -522,12 +525,26 @@ theorem scanl_tail_head (l : List Nat) (c : Nat) (cs : List Nat) (h : l = c :: c
   simp only [List.tail_cons, Nat.zero_add]
   cases cs <;> simp [List.scanl_cons]
 
-/-- (a) `CanonicalIsomorphFull` returns a permutation of `0..n-1`.
-Hypothesis on the classes: valid classes, and (current code, defect D2 of notes/C02.md) the first class is not a single
-vertex. -/
-theorem canonF_perm_full (hst : StablePerm) (fuel : Nat) (g : GraphSpec.G) (hg : g.WF) (vc : Classes)
+/-- the `m == 0` shortcut is taken exactly when `m = 0` and there is a single bin -/
+theorem allocated_shortcut {fuel n m : Nat} {nb : Nbrs} {op0 : OP} {st : Storage} {opts : Options}
+    {r : Res} {opR : Option OP} {stR : Storage} (hn : n ≠ 0) (hm : m = 0) (h1 : op0.binDividers.len = 1)
+    (h : canonicalIsomorphAllocated fuel n m nb (some op0) st opts = .ok (r, opR, stR)) :
+    ∃ st', edgeless n st = .ok (r, st') := by
+  unfold canonicalIsomorphAllocated at h
+  rw [if_neg hn] at h
+  simp only [hm, if_true, h1, beq_self_eq_true] at h
+  cases he : edgeless n st with
+  | panic => rw [he] at h; cases h
+  | outOfFuel => rw [he] at h; cases h
+  | ok y =>
+    obtain ⟨r2, st2⟩ := y
+    rw [he] at h
+    simp only [Outcome.ok.injEq, Prod.mk.injEq] at h
+    exact ⟨st2, by rw [h.1]⟩
+
+/-- (a) `CanonicalIsomorphFull` returns a permutation of `0..n-1` (for every valid choice of vertex classes). -/
+theorem canonF_perm_full (hst : StablePerm) (fuel : Nat) (g : GraphSpec.G) (vc : Classes)
     (hvc : ClassesOK g.n vc)
-    (hfirst : ∀ cls c, vc = some cls → cls.head? = some c → c.length ≠ 1)
     (r : Res) (h : canonicalIsomorphFull fuel g vc = .ok r) :
     ∃ p, r.perm = some p ∧ p.Perm (List.range g.n) := by
   unfold canonicalIsomorphFull at h
@@ -540,7 +557,7 @@ theorem canonF_perm_full (hst : StablePerm) (fuel : Nat) (g : GraphSpec.G) (hg :
     simp only [canonicalIsomorphAllocated, hn, if_true] at h
     cases h
     exact ⟨[], rfl, by simp [hn]⟩
-  · obtain ⟨op, hnew, hp, ha, hage, hspl, hval, _, _, _, _, _, _, _, _, hbd⟩ :=
+  · obtain ⟨op, hnew, hp, ha, hage, _⟩ :=
       newOrderedPartition_inv (m := ((nbrsOf g).toList.map List.length).sum / 2) (Nat.pos_of_ne_zero hn) hvc
     rw [hnew] at h
     simp only at h
@@ -553,49 +570,11 @@ theorem canonF_perm_full (hst : StablePerm) (fuel : Nat) (g : GraphSpec.G) (hg :
       rw [hal] at h
       simp only at h
       cases h
-      by_cases hm : ((nbrsOf g).toList.map List.length).sum / 2 = 0
+      by_cases hsc : ((nbrsOf g).toList.map List.length).sum / 2 = 0 ∧ op.binDividers.len = 1
       · -- the m == 0 shortcut: the identity
-        unfold canonicalIsomorphAllocated at hal
-        rw [if_neg hn, if_pos hm] at hal
-        cases he : edgeless g.n (newStorage g.n (((nbrsOf g).toList.map List.length).sum / 2)) with
-        | panic => rw [he] at hal; cases hal
-        | outOfFuel => rw [he] at hal; cases hal
-        | ok y =>
-          obtain ⟨r2, st2⟩ := y
-          rw [he] at hal
-          simp only [Outcome.ok.injEq, Prod.mk.injEq] at hal
-          rw [← hal.1]
-          exact ⟨_, edgeless_perm he, List.Perm.refl _⟩
-      · have hedge := hasEdge_of_wf g hg hm
-        have hn2 : g.n ≠ 1 := by
-          obtain ⟨u, v, hu, hv, hne, _⟩ := hedge
-          omega
-        have hcl : CleanPrefix op := by
-          refine ⟨⟨by rw [hspl]; exact Nat.zero_le _, by intro j hj; rw [hspl] at hj; omega⟩, ?_⟩
-          rw [hspl]
-          cases vc with
-          | none =>
-            simp only at hbd
-            rw [hbd]; simp; exact hn2
-          | some cls =>
-            simp only at hbd
-            rw [hbd]
-            cases hcls : cls with
-            | nil =>
-              -- impossible: the classes cover 0..n-1 and n > 0
-              exfalso
-              have := hvc.1
-              rw [hcls] at this
-              simp at this
-              exact hn this
-            | cons c cs =>
-              rw [scanl_tail_head _ c.length (cs.map List.length) (by simp)]
-              have := hfirst cls c rfl (by rw [hcls]; rfl)
-              intro hc; exact this (Option.some.inj hc)
-        have hno : NoEarlierNbr (nbrsOf g) op := by
-          intro _ j u v q hj; rw [hspl] at hj; omega
-        exact allocated_perm hst hn hm rfl hp ha hage hcl hno hedge hal
-
+        obtain ⟨st', he⟩ := allocated_shortcut hn hsc.1 hsc.2 hal
+        exact ⟨_, edgeless_perm he, List.Perm.refl _⟩
+      · exact allocated_perm hst hn (fun hm h1 => hsc ⟨hm, h1⟩) rfl hp ha hage hal
 
 /-- the hypothesis about the hand-written stable sort is a theorem (`CanonFSort.lean`) -/
 theorem stablePerm : StablePerm := fun _ _ _ h => stable_perm h
